@@ -2,12 +2,13 @@
 
 (T) mco_state / mco_result enums, MCO_DEFAULT_STORAGE_SIZE, MCO_ZERO_MEMORY, the result
     description strings, the status strings of coroutine.status, the panic messages of the
-    coroutine.create wrapper and the order of gc:unregister / minicoro.destroy in
-    coroutine.destroy are scraped into coq/C18/Gen.v;
+    coroutine.create wrapper and the order of minicoro.destroy / gc:unregister in
+    coroutine.destroy (repaired in 1075c3a: destroy first, unregister on success) are scraped into Gen.v;
 (C) the extracted model (coq/C18/Model.v) against the REAL coroutine library driven by the
     compiled schedule interpreter harness/C18/codriver.nelua on the same schedules; the
     property oracle is an independent reference state machine written from the documentation
-    (see harness/C18/oracle.py)."""
+    (harness/C18/oracle.py, strict reading: an invalid transition changes nothing).
+Open finding (designated witnesses, exact keys): a refused resume WITH arguments keeps them pushed."""
 import concurrent.futures
 import importlib.util
 import os
@@ -25,6 +26,37 @@ TRUSTED_BASE = [
     "harness/C18/codriver.nelua (schedule interpreter on the real coroutine library; nothing of coroutine.nelua / minicoro is re-implemented), harness/C18/oracle.py (reference semantics), gcc, the real Nelua compiler built from /repo/src",
     "modelled rather than verified: coroutine.nelua and the C functions of minicoro are mirrored by hand in coq/C18/Model.v; the context switch itself (assembly) and the intactness of suspended frames are outside the model and observed only through per-frame canaries",
 ]
+THEOREM_CLASSES = {
+    "C18_one_running": "main", "C18_main_running_iff": "corollary", "C18_normal_is_prev_chain": "main",
+    "C18_idle_has_no_prev": "main", "C18_storage_within_capacity": "main", "C18_state_machine": "main",
+    "C18_resume_transition": "main", "C18_yield_transition": "main", "C18_return_transition": "main",
+    "C18_quiet_commands": "main", "C18_storage_frame": "main", "C18_storage_frame_run": "corollary",
+    "C18_pop_effect": "main", "C18_dead_is_absorbing": "corollary", "C18_end_unwinds": "main",
+    "C18_storage_lifo": "main", "C18_typed_roundtrip": "main", "C18_push_rollback": "main",
+    "C18_resume_delivers_values": "main", "C18_yield_delivers_values": "main",
+    "C18_body_receives_arguments": "main", "C18_body_return_delivers_values": "main",
+    "C18_invalid_transitions": "main", "C18_error_unchanged_refuted": "refutation",
+    "C18_error_unchanged_partial": "main", "C18_registered_while_alive": "tripwire",
+    "C18_destroy_behaviour": "main", "C18_resume_args_effect": "main", "C18_gen_facts": "tripwire",
+}
+UNPROVED = [
+    "the context switch itself (_mco_switch, assembly) and 'local variables of every suspended frame are intact when it continues': no model; observed only through per-frame canaries (level frames, typed body arguments, the workers of `sub`) on every run",
+    "model = code: established by differential correspondence on generated schedules only (NSLOTS = 24, resume chains <= 24, frame depth <= 8 on the tested side; the theorems have no such bounds)",
+    "no Coq reference semantics with a refinement theorem: 'the state the documentation prescribes' is proved as invariants + the per-operation transition theorems (C18_resume/yield/return_transition, C18_quiet_commands, C18_destroy_behaviour); the call-stack reference semantics exists in Python only (oracle.py) and is compared by testing",
+    "OPEN FINDING (known_findings/C18.json, two designated witnesses): coroutine.resume(co, args...) of a coroutine that is not suspended reports failure but keeps the arguments pushed (C18_resume_args_effect states the exact effect, C18_error_unchanged_refuted uses it); outside the designated witnesses a divergence from the strict reference is accepted only when the schedule contains that trigger AND the model of the unchanged code and the code-order reference both predict the implementation's output exactly (counted as open_finding_predicted_by_model); repair proposed in harness/C18/proposed_repairs/01-resume-args-rollback.diff",
+    "documented limit, not a finding: a coroutine.pop of several values that fails midway keeps what it popped ('the values may not be set', 'the user is responsible to always use the right types and push/pop order and count'): C18_pop_effect states it exactly; corpus/C18/multipop_partial.txt replays it",
+    "GC lifecycle: only the registration flag is modelled (C18_registered_while_alive is a trip-wire for the repaired destroy order, it proves nothing about gc.nelua); `forget k` drops the only handle of a suspended/dead coroutine and collects (finalizer path coroutine_gc -> destroy -> gc:unregister): the model just removes the object; whether/when the collector finalizes it (conservative retention) is not modelled, the harness accepts 'gc.items shrinks by at most the number of forgotten coroutines, or stays' and no abort; `gc` and `sub` are identities on the model state (sub_lines is the expected transcript, not a model)",
+    "never run against the implementation: MCO_INVALID_POINTER paths (NULL src of mco_push, NULL dest of mco_peek), the unregister-first branch of co_destroy and CPanic PANIC_UNREGISTER (pre-repair code, kept under the scraped flag), the out-of-fuel line of unwind (proved unreachable)",
+    "not modelled: MCO_STACK_OVERFLOW, allocation failure (mmap), raw minicoro.yield/resume on a coroutine other than the running one, coroutine.spawn, coroutine.isyieldable of another handle, coroutine.wrap (TODO in the source)",
+    "the enum VALUES of mco_state/mco_result are scraped but enter only NoDup facts (the model is by name; gen cross-checks the C enum against the Nelua binding)",
+    "the oracle also drives the generators (schedules explore what the reference believes is reachable); the shrinker avoids the open finding's trigger",
+    "the ASan build skips schedules that destroy/close/forget a coroutine suspended inside its body (stale shadow poison after munmap gives false positives); --release and ASan only in the thorough tier",
+]
+MANIFEST_ENTRY = {
+    "text": "proof, partial: theorems over all command histories of an executable model of coroutine.nelua + minicoro: exactly one Running coroutine = current, Normal = the acyclic prev chain down to main, Suspended/Dead have no resumer; the documented transition of every operation (resume, yield, body return, destroy, quiet commands, failed calls) and Dead absorbing; LIFO byte storage within capacity with zeroed tail, storage frame (a command changes only the storage it addresses), typed push/pop round trip, all-or-nothing push, exact effect of a failing multi-value pop; values and typed body arguments/returns cross resume/yield unmodified; invalid transitions return the documented error and change nothing except the open finding (refused resume WITH arguments keeps them pushed: refuted + exact effect + partial); resting on differential testing only: that the model is the code (schedule-by-schedule correspondence of the extracted model and of an independent reference against the real library, gc/nogc/release/ASan builds), the context switch and intactness of suspended frames (canaries), the GC lifecycle of coroutines (finalizer path, stack scanning after failed transitions)",
+    "note": "trusted: Coq kernel, regex scrapes into Gen.v, ExtrOcamlBasic extraction, coq/C18/codriver.ml + glue.ml, harness/C18/codriver.nelua, harness/C18/oracle.py, gcc; assumes zero-initialised coroutine memory, little-endian value layout, no stack overflow; lib/allocators/gc.nelua itself is property C10's model (here only the registration flag)",
+    "technique": "machine-checked proof in Coq over an executable model + regenerated parameters + extracted-model/implementation correspondence on generated schedules with an independent reference oracle",
+}
 ASSUMPTIONS = [
     "the context switch (_mco_switch, assembly/ucontext) transfers control to exactly the coroutine selected by _mco_prepare_jumpin/_mco_prepare_jumpout and preserves every frame (sampled through canaries)",
     "coroutine memory returned by mmap/calloc is zero-initialised (initial storage buffer)",
@@ -218,6 +250,36 @@ WITNESSES = [
 ]
 
 
+# OPEN finding: coroutine.resume(co, args...) pushes the arguments before minicoro.resume checks the state and does not
+# take them back when the resume is refused: an invalid transition (resume of a running / dead coroutine) that
+# reports failure but changes the storage of that coroutine.  Designated witnesses (exact keys in known_findings):
+KEY_RESUME_ARGS_SELF = ("schedule:create 0 0;resume 0;resumev 0 0 7 0 0;status 0 -> the refused resume of the running coroutine "
+                        "(by itself) with one int64 argument leaves 8 bytes in its storage (status: stored=8, documented: unchanged, 0) "
+                        "[coroutine.resume: coroutine.push before minicoro.resume, no rollback]")
+KEY_RESUME_ARGS_DEAD = ("schedule:create 0 0;resume 0;ret 0 0;resumev 0 1 5 6 7;status 0 -> the refused resume of a dead coroutine from "
+                        "the main program with (int64,int32,byte) arguments leaves 13 bytes in its storage (documented: unchanged, 0) "
+                        "[coroutine.resume: coroutine.push before minicoro.resume, no rollback]")
+OPEN_WITNESSES = [
+    ("resume-args-self", ["create 0 0", "resume 0", "resumev 0 0 7 0 0", "status 0", "end"], KEY_RESUME_ARGS_SELF),
+    ("resume-args-dead", ["create 0 0", "resume 0", "ret 0 0", "resumev 0 1 5 6 7", "status 0", "end"], KEY_RESUME_ARGS_DEAD),
+]
+
+
+def has_resume_args_trigger(script, gc):
+    """does the schedule resume, WITH arguments that fit, a coroutine that exists and is not suspended?"""
+    ref = ORACLE.Ref(gc, NSLOTS, strict=False)
+    for i, cmd in enumerate(script):
+        w = cmd.split()
+        if w[0] == "resumev":
+            co = ref.slots.get(int(w[1]))
+            if co is not None and co.status != "suspended":
+                return True
+        ref.step(i, w)
+        if ref.done:
+            break
+    return False
+
+
 # ---------------------------------------------------------------------------- generators
 def rv64(rng):
     r = rng.random()
@@ -257,7 +319,7 @@ def gen_schedule(rng, stream, gc, ncos, nops, maxchain, maxdepth, psub=0.6):
               later one overflows the storage, with values pending.
     Destroy / close of running and normal coroutines (by themselves or by a coroutine they resumed) is part
     of the invalid stream in every build."""
-    ref = ORACLE.Ref(gc, NSLOTS)
+    ref = ORACLE.Ref(gc, NSLOTS, strict=False)     # the generator follows the code as it is
     script = []
     stats = {}
     invalid = stream == "invalid"
@@ -328,7 +390,7 @@ def gen_schedule(rng, stream, gc, ncos, nops, maxchain, maxdepth, psub=0.6):
                 emit(rng.choice(["yield", "yieldv %d %s" % (1, vals(1))]))
             elif c == 4 and act:
                 # a coroutine destroys / closes itself or one of its (normal) resumers
-                emit(rng.choice(["destroy %d", "destroy %d", "close %d"]) % rng.choice(act))
+                emit(rng.choice(["destroy %d", "destroy %d", "close %d", "forget %d"]) % rng.choice(act))
             elif c == 5 and live:
                 k = rng.choice(live)
                 # push overflow: fill up to near the capacity, then overflow (rollback of the big component)
@@ -478,7 +540,7 @@ def gen_schedule(rng, stream, gc, ncos, nops, maxchain, maxdepth, psub=0.6):
         elif r < 0.98:
             c = [k for k in susp + dead]
             if c:
-                emit(rng.choice(["destroy %d", "destroy %d", "close %d"]) % rng.choice(c))
+                emit(rng.choice(["destroy %d", "destroy %d", "close %d", "forget %d", "forget %d"]) % rng.choice(c))
         elif r < 1.0 - psub / 60.0:
             emit("gc")
         else:
@@ -498,6 +560,7 @@ def gen_schedule(rng, stream, gc, ncos, nops, maxchain, maxdepth, psub=0.6):
 
 # ---------------------------------------------------------------------------- running
 PANICS = None
+FORGET_STATS = {}
 
 
 def norm_expected(lines):
@@ -511,7 +574,10 @@ def norm_expected(lines):
 def run_impl(binary, script, timeout=60):
     rc, out, err = vlib.sh([binary], input="\n".join(script) + "\n", timeout=timeout,
                            env={"ASAN_OPTIONS": "detect_leaks=0:detect_stack_use_after_return=0"})
-    lines = [l for l in out.split("\n") if l]
+    lines = [l for l in out.split("\n") if l and not l.startswith("#")]
+    ncollected = sum(int(l.split("=")[1]) for l in out.split("\n") if l.startswith("# forget collected="))
+    if ncollected:
+        FORGET_STATS["collected"] = FORGET_STATS.get("collected", 0) + ncollected
     if rc != 0:
         msg = None
         for m in (ORACLE.P_POP_ARG, ORACLE.P_PUSH_RET, "invalid unregister pointer"):
@@ -614,7 +680,7 @@ def destroys_live_frames(script, gc):
     ref = ORACLE.Ref(gc, NSLOTS)
     for i, cmd in enumerate(script):
         w = cmd.split()
-        if w[0] in ("destroy", "close"):
+        if w[0] in ("destroy", "close", "forget"):
             co = ref.slots.get(int(w[1]))
             if co is not None and co.status == "suspended" and co.started:
                 return True
@@ -628,6 +694,8 @@ def shrink(binary, script, gc, budget=160):
     """delta debugging on the command list: keeps a schedule on which the implementation still differs
     from the documented behaviour."""
     def fails(sc):
+        if has_resume_args_trigger(sc, gc):
+            return False          # stay clear of the open finding while minimising something else
         try:
             exp = norm_expected(ORACLE.run(sc, gc, NSLOTS))
         except Exception:
@@ -701,7 +769,7 @@ def correspond(ctx):
         sets[gcmode] = items
     evaluations = 0
     nontrivial = set()
-    n_oracle = n_mismatch = 0
+    n_oracle = n_mismatch = n_predicted = 0
     n_runs = 0
     samples = []
     err_hist = {}
@@ -745,6 +813,12 @@ def correspond(ctx):
             if len(samples) < 4 and name.startswith(("tree", "invalid", "rollback")) and tag == "gc":
                 samples.append("%s/%s: %s" % (tag, name, short(sc)))
             d = first_diff(ilines, exp)
+            if d is not None and has_resume_args_trigger(sc, gcmode) and first_diff(ilines, mlines) is None \
+                    and first_diff(ilines, norm_expected(ORACLE.run(sc, gcmode, NSLOTS, strict=False))) is None:
+                # the open finding (a refused resume keeps its arguments pushed) met outside its designated witnesses:
+                # the model of the unchanged code and the code-order reference both predict exactly this output
+                n_predicted += 1
+                d = None
             if d is not None:
                 n_oracle += 1
                 if n_oracle <= 4:
@@ -804,6 +878,28 @@ def correspond(ctx):
                     ctx.violation("model-mismatch:witness", "correspondence",
                                   "%s build, witness %s: implementation '%s', model '%s'" % (tag, wname, dm[1], dm[2]),
                                   detail={"schedule": wsc}, failing_input=False)
+        # ---- OPEN finding: designated witnesses, judged against the strict reference (state unchanged on error)
+        for wname, wsc, key in OPEN_WITNESSES:
+            rc, ilines = run_impl(binary, wsc)
+            exp = norm_expected(ORACLE.run(wsc, gcmode, NSLOTS, strict=True))
+            mlines = norm_expected(run_model(model, [wsc], gcmode)[0])
+            evaluations += sum(1 for l in ilines if l.startswith("> "))
+            n_runs += 1
+            d = first_diff(ilines, exp)
+            if d is not None:
+                i, got, want = d
+                ctx.violation(key, "oracle",
+                              "%s build, witness %s (%s): implementation prints '%s', an invalid transition that changes nothing prints '%s'" %
+                              (tag, wname, "; ".join(wsc), got[:200], want[:200]),
+                              detail={"schedule": wsc, "implementation": ilines[max(0, i - 3):i + 2], "oracle": exp[max(0, i - 3):i + 2],
+                                      "model_agrees_with_implementation": first_diff(ilines, mlines) is None,
+                                      "proposed_repair": "harness/C18/proposed_repairs/01-resume-args-rollback.diff",
+                                      "replay": "printf '%s\\n' | ./codriver" % "\\n".join(wsc)})
+            dm = first_diff(ilines, mlines)
+            if dm is not None:
+                ctx.violation("model-mismatch:open-witness", "correspondence",
+                              "%s build, witness %s: implementation '%s', model of the unchanged code '%s'" % (tag, wname, dm[1], dm[2]),
+                              detail={"schedule": wsc}, failing_input=False)
     return {
         "evaluations": evaluations,
         "distinct_nontrivial": len(nontrivial),
@@ -811,9 +907,8 @@ def correspond(ctx):
         "samples": samples,
         "distribution": {"schedules": {("gc" if g else "nogc"): len(v) for g, v in sets.items()}, "builds": [b[0] for b in builds],
                          **dist, "error_results": err_hist},
-        "unproved": ["intactness of the locals of suspended frames and the context switch itself (outside the model; observed through per-frame canaries on every run)",
-                     "MCO_STACK_OVERFLOW, allocation failure and the raw minicoro.yield/resume entry points on a coroutine other than the running one (not modelled)",
-                     "model = code is established by differential correspondence only"],
+        "open_finding_predicted_by_model": n_predicted,
+        "forgotten_coroutines_collected_at_once": FORGET_STATS.get("collected", 0),
         "oracle_failures": n_oracle,
         "model_mismatches": n_mismatch,
         "traces_validated_against_impl": n_runs,
